@@ -235,6 +235,7 @@ func APISchema() *Schema {
 				"m":    mp(b("string"), b("string"), 0, -1),
 				"imm":  imm(atom(b("string"))),
 				"peer": opt(ref("A", "weak")),
+				"e":    atom(enum("red", "green", "blue")),
 			}},
 	}}
 	s.Normalize()
